@@ -308,9 +308,15 @@ Inductive fkind := FErr | FEintr | FNotFound.
 Definition plan := list (nlop * N * fkind).
 Definition counters := list (nlop * N).
 
-Record world := { w_st : st; w_env : env; w_cnt : counters }.
-Definition wst (w : world) (s : st) : world := {| w_st := s; w_env := w_env w; w_cnt := w_cnt w |}.
-Definition wenv (w : world) (e : env) : world := {| w_st := w_st w; w_env := e; w_cnt := w_cnt w |}.
+(* the netlink connection state of the handle manager (cachedHandle != nil, reopenHandleNextTime) is carried next
+   to the state during one Apply and stored back into s_cached / s_reopen at its end *)
+Record world := { w_st : st; w_env : env; w_cnt : counters; w_cached : bool; w_reopen : bool }.
+Definition wst (w : world) (s : st) : world :=
+  {| w_st := s; w_env := w_env w; w_cnt := w_cnt w; w_cached := w_cached w; w_reopen := w_reopen w |}.
+Definition wenv (w : world) (e : env) : world :=
+  {| w_st := w_st w; w_env := e; w_cnt := w_cnt w; w_cached := w_cached w; w_reopen := w_reopen w |}.
+Definition wconn (w : world) (c r : bool) : world :=
+  {| w_st := w_st w; w_env := w_env w; w_cnt := w_cnt w; w_cached := c; w_reopen := r |}.
 
 Definition planned (p : plan) (op : nlop) (n : N) : option fkind :=
   match filter (fun e => nlop_eqb op (fst (fst e)) && N.eqb n (snd (fst e))) p with
@@ -320,21 +326,21 @@ Definition planned (p : plan) (op : nlop) (n : N) : option fkind :=
 
 Definition nl_call (p : plan) (op : nlop) (w : world) : option fkind * world :=
   let n := match lookup nlop_eqb (w_cnt w) op with Some n => n | None => 0 end in
-  (planned p op n, {| w_st := w_st w; w_env := w_env w; w_cnt := set nlop_eqb (w_cnt w) op (n + 1) |}).
+  (planned p op n, {| w_st := w_st w; w_env := w_env w; w_cnt := set nlop_eqb (w_cnt w) op (n + 1);
+                      w_cached := w_cached w; w_reopen := w_reopen w |}).
 
 (* handlemgr.Handle(): true = a handle is available *)
 Definition handle (p : plan) (w : world) : bool * world :=
-  let s := w_st w in
-  let cached := if s_reopen s && s_cached s then false else s_cached s in
-  if cached then (true, wst w (upd_conn s true false))
+  let cached := if w_reopen w && w_cached w then false else w_cached w in
+  if cached then (true, wconn w true false)
   else
-    let '(f, w') := nl_call p NConn (wst w (upd_conn s false false)) in
+    let '(f, w') := nl_call p NConn (wconn w false false) in
     match f with
     | Some _ => (false, w')
-    | None => (true, wst w' (upd_conn (w_st w') true false))
+    | None => (true, wconn w' true false)
     end.
 
-Definition mark_reopen (w : world) : world := wst w (upd_conn (w_st w) (s_cached (w_st w)) true).
+Definition mark_reopen (w : world) : world := wconn w (w_cached w) true.
 
 (* ---------- resync ---------- *)
 Definition link_state (l : link) : ifstate := if l_running l then IfUp else IfDown.
@@ -585,13 +591,13 @@ Definition attempt (cfg : config) (p : plan) (w : world) : bool * world :=
 
 (* Apply: one attempt, one inline retry *)
 Definition apply (cfg : config) (p : plan) (s : st) (e : env) : bool * st * env :=
-  let w0 := {| w_st := s; w_env := e; w_cnt := [] |} in
+  let w0 := {| w_st := s; w_env := e; w_cnt := []; w_cached := s_cached s; w_reopen := s_reopen s |} in
   let '(err0, w1) := attempt cfg p w0 in
   let '(err, w2) :=
     if err0 || negb (match s_rescan (w_st w1) with [] => true | _ => false end)
     then attempt cfg p w1 else (err0, w1) in
   let err' := match s_rescan (w_st w2) with [] => err | _ => true end in
-  (err', w_st w2, w_env w2).
+  (err', upd_conn (w_st w2) (w_cached w2) (w_reopen w2), w_env w2).
 
 (* ---------- histories ---------- *)
 Inductive op :=
